@@ -31,13 +31,14 @@ type handover struct {
 }
 
 type recClient struct {
-	mu       sync.Mutex
-	mode     byte // 'S' consume synchronously, 'R' retain
-	hs       []*handover
-	others   int // Send/Connect/Close calls (not expected from the sender)
-	gate     chan struct{}
-	entered  chan struct{}
-	gateUsed bool
+	mu          sync.Mutex
+	mode        byte // 'S' consume synchronously, 'R' retain
+	hs          []*handover
+	others      int // Send/Connect/Close calls (not expected from the sender)
+	gate        chan struct{}
+	entered     chan struct{}
+	gateUsed    bool
+	gateExpired bool
 }
 
 func newRecClient(mode byte, gated bool) *recClient {
@@ -77,9 +78,21 @@ func (c *recClient) SendFlush(p pack.Pack, flush bool, opts ...wnet.TcpClientOpt
 	c.mu.Unlock()
 	if block {
 		close(c.entered)
-		<-c.gate
+		select {
+		case <-c.gate:
+		case <-time.After(watchdog): // never hang the caller (it might be the monitor's own goroutine)
+			c.mu.Lock()
+			c.gateExpired = true
+			c.mu.Unlock()
+		}
 	}
 	return nil
+}
+
+func (c *recClient) expired() bool {
+	c.mu.Lock()
+	defer c.mu.Unlock()
+	return c.gateExpired
 }
 
 func (c *recClient) snapshot() []*handover {
